@@ -17,17 +17,28 @@ outcross       generated tables 1-6 x 1-4 with heavy repetition
 outcross_wide  generated wide tables (12-60 parents per cross, 2-4 crosses) built from run-structured families, so
                that the descent needs many more accepted exchanges than there are crosses
 outcross_wide_fixed  a few fixed wide tables with long climbs; the expensive ones only in the thorough tier
+session_outcross / session_sus / session_tiled / session_axis
+               SESSIONS: 2-6 calls of one utility executed one after the other in the same (forked, otherwise
+               untouched) process; every call is judged on its own by the per-call oracle above.  The calls of one
+               session differ in integer dtype (int8 ... int64, unsigned too), share or do not share their shape, and
+               use id ranges from 0..5 up to beyond 2^32, including distinct ids that are congruent modulo 2^8, 2^16
+               and 2^32.  Whatever a call leaves behind in the process (module-level caches, scratch buffers, memoised
+               helpers) is therefore met by a later call with a different dtype / range / shape
 """
 import collections
 import itertools
 import math
+import os
+import pickle
+import signal
+import traceback
 from fractions import Fraction
 
 import numpy
 from hypothesis import strategies as st
 
 from pbt import compat  # noqa: F401
-from pbt.core import SubCheck
+from pbt.core import SubCheck, Violation, Reject
 from pbt.oracles import sus_ref
 
 from pybrops.core.random.sampling import stochastic_universal_sampling
@@ -57,6 +68,12 @@ ASSUMPTIONS = [
     "(the function works on xconfig.ravel(), which is a view only for contiguous input)",
     "outcross_shuffle wide tables: sizes are bounded by cost (one pass evaluates (r*c)^2/2 exchanges with r "
     "numpy.unique calls each): quick tier r*c <= 144, thorough tier r*c <= 240",
+    "sessions: several calls of one utility are executed one after the other in a forked child of the worker process "
+    "(the worker never calls the utility itself in these sub-checks), so a session starts from the process state left "
+    "by the import of the check module and its outcome depends on the case only; each call is judged on its own by the "
+    "per-call oracle and nothing is asserted about the relation between calls.  Integer dtypes int8..int64 / "
+    "uint8..uint32, non-negative ids up to 2^62+2^34; a requested dtype is used when the generated values fit it "
+    "(otherwise int64, or the large part of the id is dropped)",
 ]
 
 EPS = 2.0 ** -52
@@ -265,6 +282,36 @@ def sus_case(draw, zone=False):
     return {"weights": wc, "size": size, "rng": rng, "labels": labels}
 
 
+def fits(values, dtype):
+    """do all (python int) values fit into the integer dtype?"""
+    info = numpy.iinfo(dtype)
+    return all(info.min <= int(v) <= info.max for v in values)
+
+
+def cast_fit(values, dtype, shape=None):
+    """Integer array of the requested dtype when every value fits, int64 otherwise (so that every case is valid)."""
+    values = [int(v) for v in values]
+    out = numpy.array(values, dtype=dtype if fits(values, dtype) else "int64")
+    return out if shape is None else out.reshape(shape)
+
+
+def int_labels(n, kind, dtype):
+    """Element labels for SUS / option values for tiled_choice: n distinct integers.
+
+    arange  0..n-1;   offset  100+7i;   big  top-256i where top = min(2^40, largest value of the dtype): ids far
+    beyond 127 / 32767 that are all congruent modulo 256.  A kind whose values do not fit the dtype falls back to
+    the next smaller kind."""
+    top = min(2 ** 40, int(numpy.iinfo(dtype).max))
+    candidates = {"big": [top - 256 * i for i in range(n)], "offset": [100 + 7 * i for i in range(n)],
+                  "arange": list(range(n))}
+    order = ["big", "offset", "arange"]
+    for k in order[order.index(kind):]:
+        vals = candidates[k]
+        if min(vals) >= 0 and fits(vals, dtype):
+            return numpy.array(vals, dtype=dtype)
+    return numpy.arange(n, dtype="int64")
+
+
 def _size_arg(size):
     return int(size) if isinstance(size, int) else tuple(int(x) for x in size)
 
@@ -278,13 +325,13 @@ def sus_common(case, ctx):
     n = len(w)
     size = _size_arg(case["size"])
     k = _k(case["size"])
-    a = numpy.arange(n) if case["labels"] == "arange" else 100 + 7 * numpy.arange(n)
-    a = a.astype("int64")
+    a = int_labels(n, case["labels"], case.get("adtype", "int64"))
     p = numpy.array(w, dtype="float64")
     rng = make_rng(case["rng"])
     e = sus_ref.expected_counts(w, k)
     pos = sorted(set(x for x in w if x > 0))
     ctx.label("rng=" + case["rng"]["kind"])
+    ctx.label("labels_dtype=" + str(a.dtype), "adtype" in case)
     ctx.label("wkind=" + case["weights"]["wkind"])
     ctx.label("size_form=" + ("int" if isinstance(size, int) else "%dd" % len(size)))
     ctx.label("n=1", n == 1)
@@ -401,14 +448,17 @@ def tiled_case(draw):
 def check_tiled(case, ctx):
     okind = case["okind"]
     nopt = len(case["opts"])
+    dt = case.get("dtype", "int64")       # sessions only: integer dtype of the option array (honoured when the values fit)
     if okind == "arange":
-        a = numpy.arange(nopt, dtype="int64")
+        a = cast_fit(range(nopt), dt)
     elif okind == "labels":
-        a = (1000 - 13 * numpy.arange(nopt)).astype("int64")
+        a = cast_fit([1000 - 13 * i for i in range(nopt)], dt)
+    elif okind == "big":                  # sessions only: ids far beyond 127 / 32767, all congruent modulo 256
+        a = int_labels(nopt, "big", dt)
     elif okind == "float":
         a = (0.5 + numpy.arange(nopt)).astype("float64")
     else:
-        a = numpy.array(case["opts"], dtype="int64")
+        a = cast_fit(case["opts"], dt)
     size = _size_arg(case["size"])
     ns = _k(case["size"])
     shape = (size,) if isinstance(size, int) else tuple(size)
@@ -428,6 +478,7 @@ def check_tiled(case, ctx):
     ctx.label("with_p", p is not None)
     ctx.label("p_has_zero", p is not None and any(x == 0 for x in pw))
     ctx.label("options=" + okind)
+    ctx.label("options_dtype=" + str(a.dtype), "dtype" in case)
     ctx.label("whole_tiles_only", re == 0 and not replace)
     ctx.label("fewer_samples_than_options", q == 0 and not replace)
     ctx.label("tiles_and_remainder", q >= 1 and re >= 1 and not replace)
@@ -529,10 +580,13 @@ def check_axis_shuffle(case, ctx):
     shape = tuple(case["shape"])
     axes = [int(x) for x in case["axes"]]
     n = int(numpy.prod(shape))
+    dt = case.get("dtype", "int64")       # sessions only: dtype (honoured when the values fit) and first value
+    base = int(case.get("base", 0))
     if case["values"] == "distinct":
-        arr = numpy.arange(n, dtype="int64").reshape(shape)
+        arr = cast_fit([base + i for i in range(n)], dt, shape)
     else:
-        arr = (numpy.arange(n, dtype="int64") * 7 % 3).reshape(shape)
+        arr = cast_fit([base + i * 7 % 3 for i in range(n)], dt, shape)
+    ctx.label("array_dtype=" + str(arr.dtype), "dtype" in case)
     before = arr.copy()
     axis = axes[0] if case["form"] == "int" else tuple(axes)
     rng = make_rng(case["rng"])
@@ -583,9 +637,9 @@ def ndup(table):
     return sum(len(row) - len(set(row)) for row in table)
 
 
-def outcross_clauses(table, rng_spec, ctx, tag):
+def outcross_clauses(table, rng_spec, ctx, tag, dtype="int64"):
     r, c = len(table), len(table[0])
-    x = numpy.array(table, dtype="int64").reshape(r, c)
+    x = numpy.array(table, dtype=dtype).reshape(r, c)
     before = [list(map(int, row)) for row in x.tolist()]
     rng = make_rng(rng_spec)
     # a descent that only accepts strict improvements of a non-negative integer score needs at most d0+1 passes;
@@ -775,6 +829,198 @@ def outcross_wide_fixed_cases(tier):
     return out
 
 
+# ------------------------------------------------------------------------------------------------ sessions
+# The property is quantified over all inputs of a call; it does not say "of the first call in a process".  A session
+# is a list of calls of ONE utility executed one after the other in the same process; every call is judged by the
+# per-call oracle (the functions above), nothing is asserted about the relation between calls.
+#
+# Isolation: a session runs in a forked child of the worker.  The worker itself never calls the utility in these
+# sub-checks, so every session starts from the same process state and its outcome is a function of the case alone
+# (Hypothesis can shrink it; a replay in a fresh process sees what the search saw).  Whatever the calls of a session
+# leave behind in the process dies with the child.
+def _exception_clause(e):
+    """same bucket naming as the runner: exception:<Type>@<innermost pybrops frame>"""
+    pyb, last = None, None
+    for fs in traceback.extract_tb(e.__traceback__):
+        last = fs
+        if "/pybrops/" in fs.filename.replace("\\", "/"):
+            pyb = fs
+    fs = pyb or last
+    where = "%s:%s" % (os.path.basename(fs.filename), fs.name) if fs is not None else "?"
+    return "exception:%s@%s" % (type(e).__name__, where)
+
+
+def run_isolated(fn, case, ctx):
+    """fn(case, ctx) in a forked child; labels/notes/exclusions and the outcome are carried back into ``ctx``."""
+    rfd, wfd = os.pipe()
+    pid = os.fork()
+    if pid == 0:                                        # ---- child
+        status = 1
+        try:
+            os.close(rfd)
+            if hasattr(signal, "setitimer"):
+                signal.setitimer(signal.ITIMER_REAL, 0)
+            outcome = None
+            try:
+                fn(case, ctx)
+            except Violation as v:
+                outcome = ("violation", v.clause, v.msg)
+            except Reject:
+                outcome = ("reject",)
+            except Exception as e:      # escaped from the code under test: same treatment as in the runner
+                outcome = ("exception", _exception_clause(e),
+                           "".join(traceback.format_exception(type(e), e, e.__traceback__)[-6:])[-1500:])
+            payload = pickle.dumps({"labels": list(ctx.labels), "nontrivial": bool(ctx.is_nontrivial),
+                                    "excluded": dict(ctx.excluded), "suppressed_hits": dict(ctx.suppressed_hits),
+                                    "notes": dict(ctx.notes), "outcome": outcome})
+            with os.fdopen(wfd, "wb") as fh:
+                fh.write(payload)
+            status = 0
+        finally:
+            os._exit(status)
+    os.close(wfd)                                       # ---- parent
+    reaped = False
+    try:
+        with os.fdopen(rfd, "rb") as fh:
+            data = fh.read()
+        _, st_ = os.waitpid(pid, 0)
+        reaped = True
+    finally:
+        if not reaped:                                  # watchdog alarm or interrupt while waiting
+            try:
+                os.kill(pid, signal.SIGKILL)
+                os.waitpid(pid, 0)
+            except OSError:
+                pass
+    if not data:
+        raise RuntimeError("the process executing the session died (wait status %r)" % (st_,))
+    res = pickle.loads(data)
+    ctx.labels.extend(res["labels"])
+    ctx.is_nontrivial = ctx.is_nontrivial or res["nontrivial"]
+    ctx.excluded.update(res["excluded"])
+    ctx.suppressed_hits.update(res["suppressed_hits"])
+    ctx.notes.update(res["notes"])
+    out = res["outcome"]
+    if out is None:
+        return
+    if out[0] == "reject":
+        raise Reject()
+    ctx.fail(out[1], out[2])
+
+
+INT_DTYPES = ("int8", "uint8", "int16", "uint16", "int32", "uint32", "int64")
+_dtype = st.sampled_from(INT_DTYPES + ("int64", "int64"))
+MODULI = (2 ** 8, 2 ** 16, 2 ** 32)
+BASES = (0, 0, 0, 1, 100, 120, 127, 128, 200, 250, 255, 256, 1000, 32760, 32767, 32768, 40000, 65530, 65536, 10 ** 6,
+         2 ** 31 - 4, 2 ** 31, 2 ** 32 - 3, 2 ** 32, 2 ** 40, 2 ** 53, 2 ** 62)
+
+
+def session_ids(call):
+    """Ids of one cross table of a session (python ints), built so that they fit the dtype of the call.
+
+    cell = base + symbol + modulus*k with a small alphabet of symbols (repeats are frequent), k in 0..3 and modulus
+    2^8 / 2^16 / 2^32: cells with equal symbol and different k are DIFFERENT individuals whose ids are congruent
+    modulo 2^8 (2^16, 2^32).  A cell that does not fit the dtype drops the modulus term, then the base."""
+    info = numpy.iinfo(call["dtype"])
+    base, mod = int(call["base"]), int(call["modulus"])
+    out = []
+    for sym, k in zip(call["cells"], call["ks"]):
+        for v in (base + sym + mod * k, base + sym, sym + mod * k, sym):
+            if v <= info.max:
+                out.append(int(v))
+                break
+    return out
+
+
+@st.composite
+def session_outcross_case(draw):
+    nshape = draw(st.sampled_from([1, 1, 2]))
+    shapes = [[draw(st.integers(1, 4)), draw(st.sampled_from([1, 2, 2, 2, 3, 3, 4]))] for _ in range(nshape)]
+    calls = []
+    for _ in range(draw(st.integers(2, 6))):
+        sh = draw(st.sampled_from([0, 0, 0, 1])) % nshape
+        n = shapes[sh][0] * shapes[sh][1]
+        nsym = draw(st.integers(1, 5))
+        kmax = draw(st.sampled_from([0, 1, 1, 2, 3]))
+        calls.append({"shape": sh, "dtype": draw(_dtype), "base": draw(st.sampled_from(BASES)),
+                      "modulus": draw(st.sampled_from(MODULI)),
+                      "cells": [draw(st.integers(0, nsym - 1)) for _ in range(n)],
+                      "ks": [draw(st.integers(0, kmax)) for _ in range(n)],
+                      "rng": draw(real_rng)})
+    return {"shapes": shapes, "calls": calls}
+
+
+def _session_outcross(case, ctx):
+    seen = {}            # shape -> dtypes of the earlier calls of the session with that shape
+    for pos, call in enumerate(case["calls"]):
+        r, c = case["shapes"][call["shape"]]
+        ids = session_ids(call)
+        table = [ids[i * c:(i + 1) * c] for i in range(r)]
+        dt = numpy.dtype(call["dtype"])
+        earlier = seen.setdefault((r, c), [])
+        narrower = [d for d in earlier if d.itemsize < dt.itemsize]
+        top = max(ids)
+        congruent = any(a != b and (a - b) % 256 == 0 for row in table for a in row for b in row)
+        ctx.label("call_dtype=" + call["dtype"])
+        ctx.label("later_call", pos > 0)
+        ctx.label("same_shape_as_an_earlier_call", bool(earlier))
+        ctx.label("same_shape_narrower_dtype_earlier", bool(narrower))
+        ctx.label("different_shape_from_every_earlier_call", pos > 0 and not earlier)
+        ctx.label("ids_beyond_127", top > 127)
+        ctx.label("ids_beyond_32767", top > 32767)
+        ctx.label("ids_beyond_2^32", top >= 2 ** 32)
+        ctx.label("distinct_ids_congruent_mod_256_in_one_cross", congruent)
+        ctx.label("congruent_ids_after_narrower_dtype_same_shape",
+                  bool(narrower) and any(a != b and (a - b) % (2 ** (8 * min(d.itemsize for d in narrower))) == 0
+                                         for row in table for a in row for b in row))
+        ctx.note("call_%d" % pos, {"dtype": call["dtype"], "table": table})
+        outcross_clauses(table, call["rng"], ctx, "outcross_session.", dtype=call["dtype"])
+        earlier.append(dt)
+
+
+def check_session_outcross(case, ctx):
+    run_isolated(_session_outcross, case, ctx)
+
+
+# sessions of the three other utilities: the per-call cases of the sub-checks above, widened by an integer dtype
+# and large / congruent labels, several of them in one process
+@st.composite
+def session_list_case(draw, kind):
+    calls = []
+    for _ in range(draw(st.integers(2, 5))):
+        if kind == "sus":
+            c = draw(sus_case(False))
+            c["adtype"] = draw(_dtype)
+            c["labels"] = draw(st.sampled_from(["arange", "offset", "big", "big"]))
+        elif kind == "tiled":
+            c = draw(tiled_case())
+            c["dtype"] = draw(_dtype)
+            if c["okind"] == "labels" and draw(st.booleans()):
+                c["okind"] = "big"
+        else:
+            c = draw(axis_case())
+            c["dtype"] = draw(_dtype)
+            c["base"] = draw(st.sampled_from(BASES[:-1]))
+        calls.append(c)
+    return {"calls": calls}
+
+
+def _session_of(check_one):
+    def inner(case, ctx):
+        for pos, call in enumerate(case["calls"]):
+            ctx.label("later_call", pos > 0)
+            check_one(call, ctx)
+
+    def outer(case, ctx):
+        run_isolated(inner, case, ctx)
+    return outer
+
+
+check_session_sus = _session_of(check_sus)
+check_session_tiled = _session_of(check_tiled)
+check_session_axis = _session_of(check_axis_shuffle)
+
+
 SUBCHECKS = [
     SubCheck("sus", check_sus, sus_case(False), quick=2500, thorough=8000, shards_quick=4,
              rule="generated (weights n<=10: integer/equal/decimal-grid/1e-12/1e12/power-of-two/mixed-magnitude/float, "
@@ -821,4 +1067,27 @@ SUBCHECKS = [
                   "25-50 accepted exchanges); thorough adds 16 larger ones (6x40, 4x48, 5x40, 4x40, 4x60, 2x100, 8x24; "
                   "40-150 accepted exchanges, seconds to tens of seconds per call)",
              required_labels=("climb_longer_than_10_passes_per_cross",)),
+    SubCheck("session_outcross", check_session_outcross, session_outcross_case(), quick=400, thorough=2000,
+             shards_quick=2,
+             rule="generated sessions of 2-6 outcross_shuffle calls in one forked process: 1-2 table shapes (1-4 x 1-4) "
+                  "shared by the calls, dtype int8/uint8/int16/uint16/int32/uint32/int64 per call, ids = base (0 .. 2^62) "
+                  "+ symbol (1-5 symbols) + modulus (2^8/2^16/2^32) * k so that distinct ids congruent modulo the width of "
+                  "a narrower dtype meet in one cross; every call judged by the per-call oracle; non-trivial = at least "
+                  "one duplicate removed in some call",
+             required_labels=("same_shape_narrower_dtype_earlier", "different_shape_from_every_earlier_call",
+                              "ids_beyond_32767", "ids_beyond_2^32", "distinct_ids_congruent_mod_256_in_one_cross",
+                              "congruent_ids_after_narrower_dtype_same_shape", "call_dtype=int8", "call_dtype=uint16",
+                              "duplicates_removed", "irreducible_duplicates_remain")),
+    SubCheck("session_sus", check_session_sus, session_list_case("sus"), quick=250, thorough=1500, shards_quick=1,
+             rule="generated sessions of 2-5 SUS calls (cases of `sus`) in one forked process; element labels int8..int64, "
+                  "0..n-1 / 100+7i / top-256i (top = min(2^40, dtype max)); non-trivial as for sus",
+             required_labels=("later_call", "labels_dtype=int8", "labels_dtype=int64")),
+    SubCheck("session_tiled", check_session_tiled, session_list_case("tiled"), quick=250, thorough=1500, shards_quick=1,
+             rule="generated sessions of 2-5 tiled_choice calls (cases of `tiled`) in one forked process; option arrays "
+                  "int8..int64 incl. ids top-256i; non-trivial as for tiled",
+             required_labels=("later_call", "options_dtype=int8", "options_dtype=int64", "options=big")),
+    SubCheck("session_axis", check_session_axis, session_list_case("axis"), quick=250, thorough=1500, shards_quick=1,
+             rule="generated sessions of 2-5 axis_shuffle calls (cases of `axis_shuffle`) in one forked process; arrays "
+                  "int8..int64 with first value 0 .. 2^53; non-trivial as for axis_shuffle",
+             required_labels=("later_call", "array_dtype=int8", "array_dtype=int64", "array_changed")),
 ]
